@@ -169,6 +169,9 @@ func checkC08(c *Ctx) {
 	checkMergeOrder(c)
 	checkIndexIterGuard(c)
 	checkNodeKeyNil(c)
+	c.rule("PASS-overlay", "the overlay the merged iterator reads is recorded with every change of the working root, cancelled consistently, and kept until the commit succeeded", 6)
+	checkOverlayMaintenance(c, "PASS-overlay")
+	checkEmptyValueLegal(c)
 	checkTraversalTable(c)
 	checkFastIteratorDomain(c)
 }
@@ -985,5 +988,84 @@ func checkNodeKeyNil(c *Ctx) {
 	}
 	if n < 2 {
 		c.anchorMissing(R, "fewer than 2 nodeKey dereferences in ImmutableTree's methods")
+	}
+}
+
+// checkEmptyValueLegal (shared by C08 and C01): a nil value is illegal, an
+// EMPTY value ([]byte{}) is a legal stored value.  Presence of a value must
+// therefore be tested by nil-ness; a length test (len(v) == 0, len(v) > 0)
+// on a user value treats a stored empty value as absent — the entry vanishes
+// from an iteration or a lookup.  Expected count today: zero such tests.
+func checkEmptyValueLegal(c *Ctx) {
+	l := c.L
+	const R = "DOM-empty-value-legal"
+	c.rule(R, "presence of a value is tested by nil-ness, never by length (empty values are legal)", 0)
+	valueFields := map[string]bool{"Node.value": true, "ExportNode.Value": true, "KVPair.Value": true, "UnsavedFastIterator.nextVal": true, "FastIterator.nextFastNode": false}
+	isUserValue := func(v ssa.Value) (string, bool) {
+		v = stripTrivial(v)
+		if ld, ok := v.(*ssa.UnOp); ok && ld.Op == token.MUL {
+			if fa, ok := ld.X.(*ssa.FieldAddr); ok {
+				if n := derefNamed(fa.X.Type()); n != nil {
+					k := n.Obj().Name() + "." + fieldName(fa.X.Type(), fa.Field)
+					if valueFields[k] {
+						return k, true
+					}
+				}
+			}
+		}
+		if call, ok := v.(*ssa.Call); ok {
+			name := ""
+			if call.Call.IsInvoke() {
+				name = call.Call.Method.Name()
+			} else if f := staticCallee(&call.Call); f != nil && f.Signature.Recv() != nil {
+				name = f.Name()
+			}
+			if name == "GetValue" || name == "Value" {
+				return name + "()", true
+			}
+		}
+		return "", false
+	}
+	n := 0
+	for _, fn := range l.SrcFuncs {
+		p := l.pkgPathOf(fn)
+		if p != l.ModPath && p != l.ModPath+"/fastnode" {
+			continue
+		}
+		if isPrintingUtility(fn) {
+			continue
+		}
+		allInstrs(fn, func(in ssa.Instruction) {
+			bo, ok := in.(*ssa.BinOp)
+			if !ok {
+				return
+			}
+			switch bo.Op {
+			case token.EQL, token.NEQ, token.GTR, token.LSS, token.GEQ, token.LEQ:
+			default:
+				return
+			}
+			for _, side := range [][2]ssa.Value{{bo.X, bo.Y}, {bo.Y, bo.X}} {
+				call, ok := stripTrivial(side[0]).(*ssa.Call)
+				if !ok {
+					continue
+				}
+				bi, ok := call.Call.Value.(*ssa.Builtin)
+				if !ok || bi.Name() != "len" {
+					continue
+				}
+				k, isK := constInt(side[1])
+				if !isK || (k != 0 && k != 1) {
+					continue
+				}
+				if what, isV := isUserValue(call.Call.Args[0]); isV {
+					n++
+					c.bad(R, l.fname(fn)+" tests len("+what+")", l.ipos(in), "the length of a user value is used as a presence test: an entry whose value is the (legal) empty byte string is treated as absent")
+				}
+			}
+		})
+	}
+	if n == 0 {
+		c.ok(R, "no length-based presence test on user values", "-", "0 sites in the root package and fastnode")
 	}
 }
